@@ -145,6 +145,25 @@ def _check_frame(run, m, h, site):
             r = run.call(lambda: K.canon_cell(h.read_cell(col_name=cn, row_idx=[i])))
             if r[0] == "exc" or K.deep_diff((r[1],), (m.rows[i][ci],)) is not None:
                 run.violation("frame_read", site, "read_cell_name", "(%r,%d) -> %r expected %r" % (cn, i, r[1], m.rows[i][ci]))
+        if len(m.cols) >= 2:
+            # several columns at once, by name and by index (order as asked), with a row slice
+            a = (run.step * 3) % len(m.cols)
+            b = (a + 1 + run.step % (len(m.cols) - 1)) % len(m.cols)
+            lo = run.step % n
+            hi = lo + 1 + (run.step // 3) % (n - lo)
+            wantsub = tuple((row[a], row[b]) for row in m.rows[lo:hi])
+            for label, fn in (("read_columns_multi_name",
+                               lambda: h.read_columns(name=[m.cols[a][0], m.cols[b][0]], slc=slice(lo, hi))),
+                              ("read_columns_multi_index", lambda: h.read_columns(index=[a, b], slc=slice(lo, hi)))):
+                r = run.call(lambda: tuple(tuple(K.canon_cell(c) for c in x.item()) for x in fn()))
+                if r[0] == "exc" or K.deep_diff(r[1], wantsub) is not None:
+                    run.violation("frame_read", site, label, "cols %d,%d rows %d:%d -> %r expected %r" % (a, b, lo, hi, r[1], wantsub))
+            if all(t in ("int64", "float64") for _, t in (m.cols[a], m.cols[b])):
+                r = run.call(lambda: tuple(tuple(float(v) for v in col) for col in h.read_columns(index=[a, b], group_by_cols=True)))
+                wantg = (tuple(float(row[a]) for row in m.rows), tuple(float(row[b]) for row in m.rows))
+                if r[0] == "exc" or K.deep_diff(r[1], wantg) is not None:
+                    run.violation("frame_read", site, "read_columns_grouped", "cols %d,%d -> %r expected %r" % (a, b, r[1], wantg))
+            run.stats["frame_multi_column_reads"] += 1
     run.stats["frame_checks"] += 1
 
 
@@ -153,7 +172,7 @@ class FrameOp:
     HOWS = ["append_rows", "append_rows", "append_column", "write_rows", "write_rows", "write_column",
             "write_column", "write_cell", "write_cell", "units", "read",
             "bad_column_len", "bad_dup_column", "bad_unknown_column", "bad_row_oob", "bad_row_width",
-            "bad_cell_oob", "bad_write_column_len", "bad_append_rows_later_row", "bad_append_rows_later_row"]
+            "bad_cell_oob", "bad_write_column_len", "bad_rows_vs_index", "bad_append_rows_later_row", "bad_append_rows_later_row"]
 
     def gen(self, run, rng):
         frs = run.enum("frame")
@@ -300,11 +319,13 @@ class FrameOp:
             # a batch whose first rows are fine and whose last row does not fit: refused as a whole
             call = lambda: h.append_rows([row, row, row + [1]])  # noqa
         elif how == "bad_row_oob":
-            call = lambda: h.write_rows([row], [n + 1])  # noqa
+            call = lambda: h.write_rows([row], [n + (o.get("df", 0) % 2)])  # noqa   (n is the first index out of range)
+        elif how == "bad_rows_vs_index":
+            call = lambda: h.write_rows([row, row], [0])  # noqa
         elif how == "bad_row_width":
             call = lambda: h.write_rows([row + [1]], [0])  # noqa
         else:
-            call = lambda: h.write_cell(CELL[m.cols[0][1]][1], position=(n + 2, 0))  # noqa
+            call = lambda: h.write_cell(CELL[m.cols[0][1]][1], position=(n + 2 * (o.get("df", 0) % 2), 0))  # noqa
         r = run.call(call)
         run.expect_refused(r, "df_" + how, how)
         h2 = run.R(m, 0)
